@@ -694,19 +694,24 @@ func runC02(c *Ctx) {
 
 // checkForward: every literal of dstType built in f stores dstField from a value deriving from src.
 func (c *Ctx) checkForward(rule string, f *ssa.Function, dstPkg, dstType, dstField string, src func(ssa.Value) bool, srcDesc string, floor int) {
+	// the literal may be built in an unexported helper the function is split into; what the helper is given is
+	// followed to its call sites
 	sl := flow.NewSlicer(c.P)
+	sl.LiftParams = 2
 	n := 0
-	for _, b := range f.Blocks {
-		for _, in := range b.Instrs {
-			al, ok := in.(*ssa.Alloc)
-			if !ok || !namedIs(al.Type(), dstPkg, dstType) {
-				continue
+	for _, rf := range unexportedRegion(f) {
+		for _, b := range rf.Blocks {
+			for _, in := range b.Instrs {
+				al, ok := in.(*ssa.Alloc)
+				if !ok || !namedIs(al.Type(), dstPkg, dstType) {
+					continue
+				}
+				n++
+				fields := literalFields(al)
+				v := fields[dstField]
+				ok = v != nil && sl.Derives(v, src)
+				c.S.Check(ok, rule, load.FuncName(f)+":"+dstType+"."+dstField, c.pos(al.Pos()), dstField+" ← "+srcDesc, fmt.Sprintf("%s.%s is not set from %s: the configuration the caller named is silently ignored", dstType, dstField, srcDesc))
 			}
-			n++
-			fields := literalFields(al)
-			v := fields[dstField]
-			ok = v != nil && sl.Derives(v, src)
-			c.S.Check(ok, rule, load.FuncName(f)+":"+dstType+"."+dstField, c.pos(al.Pos()), dstField+" ← "+srcDesc, fmt.Sprintf("%s.%s is not set from %s: the configuration the caller named is silently ignored", dstType, dstField, srcDesc))
 		}
 	}
 	c.S.Floor(rule, dstType+" literals in "+load.FuncName(f), floor, n)
